@@ -7,6 +7,7 @@ from .. import astq
 from ..events import EventRule, evs, outcome_name, run_function
 from ..interp import AV, BASE_TOP, EXT_TOP, RESEND, UNK, BaseRule, Out, const, exc, obj, ok_out, raise_out, unk
 from ..model import AnalysisError
+from ..rows import helper_closure
 
 CP = "urllib3.connectionpool"
 RS = "urllib3.response"
@@ -32,6 +33,18 @@ def _resp_seeds():
     }
 
 
+def _role(av):
+    """Which of the response's collaborators a value is (by identity of the seeded field, so a local alias keeps its role)."""
+    if av is None:
+        return None
+    for tag, role in (("f:_connection", "conn"), ("f:_pool", "pool"), ("f:_orig", "orig")):
+        if av.sym == tag:
+            return role
+    if av.kind == "obj" and av.val in ("conn", "pool", "orig", "fp"):
+        return av.val
+    return None
+
+
 class RespRule(BaseRule):
     """Events of the response's connection hand-back protocol."""
 
@@ -49,27 +62,31 @@ class RespRule(BaseRule):
             s.log(node, log or f"call {t}")
             return Out("normal", s, av)
 
-        if t == "self._pool._put_conn":
+        role = _role(recv)
+        leaf = node.func.attr if isinstance(node.func, ast.Attribute) else None
+        if (role == "pool" and leaf == "_put_conn") or t == "self._pool._put_conn":
             s = st.copy()
             s.ts["put"] = s.ts.get("put", 0) + 1
             conn = st.view(st.heap.get(("self", "_connection"), UNK))
             s.ts["ev"] = s.ts.get("ev", ()) + ("put",)
             if conn.truth is not True:
                 self.viol.append(("put-without-connection", st))
+            if pos and _role(pos[0]) != "conn" and ast.unparse(node.args[0]) != "self._connection":
+                self.viol.append(("put-of-something-else", st))
             s.log(node, "PUT to pool")
             return [Out("normal", s, const(None))]
-        if t == "self._connection.close":
+        if (role == "conn" and leaf == "close") or t == "self._connection.close":
             s = st.copy()
             s.ts["ev"] = s.ts.get("ev", ()) + ("conn_close",)
             s.log(node, "close connection")
             return [Out("normal", s, const(None))]
-        if t in ("self._original_response.close", "self._fp.close", "io.IOBase.close"):
+        if (role in ("orig", "fp") and leaf == "close") or t in ("self._original_response.close", "self._fp.close", "io.IOBase.close"):
             s = st.copy()
             s.ts["ev"] = s.ts.get("ev", ()) + ("fp_close",)
             s.ts["fp_closed"] = True
             s.log(node, t)
             return [Out("normal", s, const(None))]
-        if t in ("self._original_response.isclosed", "self._fp.isclosed"):
+        if (role in ("orig", "fp") and leaf == "isclosed") or t in ("self._original_response.isclosed", "self._fp.isclosed"):
             if st.ts.get("fp_closed"):
                 return [ok(const(True))]
             return [ok(AV("unk", sym="fp-exhausted"))]
@@ -108,7 +125,7 @@ def run(ctx):
         rule = RespRule()
         seeds = _resp_seeds()
         seeds[("self", "_connection")] = conn_seed
-        outs, it = run_function(m, fi, rule, HR, seeds=seeds)
+        outs, it = run_function(m, fi, rule, HR, inline=set(helper_closure(m, [fi])), seeds=seeds)
         ctx.states += it.budget.steps
         puts = [o for o in outs if o.st.ts.get("put", 0)]
         if label == "back-reference set":
@@ -180,7 +197,7 @@ def run(ctx):
     roots = [exc("socket.timeout"), exc("ssl.SSLError"), exc("http.client.IncompleteRead"), exc("http.client.HTTPException"),
              exc("builtins.OSError"), BASE_TOP]
     rule = RespRule(fp_raises=roots)
-    inline = {m.method(HR, "release_conn").qual}
+    inline = set(helper_closure(m, [m.method(HR, "release_conn")]))
     seeds = _resp_seeds()
     seeds[("self", "_connection")] = AV("obj", "conn", truth=True, none=False)
     seeds[("self", "_pool")] = AV("obj", "pool", truth=True, none=False)
@@ -278,7 +295,7 @@ def run(ctx):
     seeds = _resp_seeds()
     seeds[("self", "_connection")] = AV("obj", "conn", truth=True, none=False)
     seeds[("self", "_pool")] = AV("obj", "pool", truth=True, none=False)
-    outs, it = run_function(m, fi, rule, HR, inline={m.method(HR, "release_conn").qual}, seeds=seeds)
+    outs, it = run_function(m, fi, rule, HR, inline=set(helper_closure(m, [m.method(HR, "release_conn")])), seeds=seeds)
     ctx.states += it.budget.steps
     dn = [o for o in outs if o.kind != "raise"]
     ctx.sites(R7, len(dn), 1, "normal exits of drain_conn")
@@ -301,7 +318,7 @@ def run(ctx):
     seeds = _resp_seeds()
     seeds[("self", "_connection")] = AV("obj", "conn", truth=True, none=False)
     seeds[("self", "_pool")] = AV("obj", "pool", truth=True, none=False)
-    outs, it = run_function(m, fi, rule, HR, inline={m.method(HR, "release_conn").qual}, seeds=seeds)
+    outs, it = run_function(m, fi, rule, HR, inline=set(helper_closure(m, [m.method(HR, "release_conn")])), seeds=seeds)
     normal = [o for o in outs if o.kind != "raise"]
     ctx.sites(R7, len(normal), 1, "normal exits of close()")
     released = [o for o in normal if o.st.ts.get("put")]
@@ -421,7 +438,7 @@ def run(ctx):
 
         def call(self, it, st, node, recv, pos, kw):
             t = ast.unparse(node.func)
-            if t == f"{qparam}.get":
+            if recv is not None and recv.sym == f"p:{qparam}" and isinstance(node.func, ast.Attribute) and node.func.attr in ("get", "get_nowait"):
                 self.gets += 1
                 if st.ts.get("open_item"):
                     self.viol.append(("an item taken from the queue is dropped unclosed before the next get", st))
@@ -441,7 +458,7 @@ def run(ctx):
             return None
 
     rule = DrainRule()
-    outs, it = run_function(m, fi, rule)
+    outs, it = run_function(m, fi, rule, inline=set(helper_closure(m, [fi])) - {fi.qual})
     ctx.sites(R10, rule.gets, 1, "queue get in the drain loop")
     # an item known falsy (None placeholder) needs no close
     real = [(w, s) for w, s in rule.viol if s.facts.get("item", (None, None))[0] is not False]
